@@ -807,6 +807,30 @@ struct Splitter
                 elig.push_back(static_cast<int>(i));
             }
         }
+        if (m != 0 && opt.libsParsed && !leaveGap) {
+            // A top-level library element that an importer connects to cannot become an import element itself: parsed from
+            // a file it carries no placeholder variables, and flattenModel then loses the importer's connections (known
+            // finding, excluded by construction).
+            std::vector<int> ok;
+            for (int e : elig) {
+                bool connectedTarget = false;
+                if (old.comps[static_cast<size_t>(e)].parent < 0) {
+                    for (const auto &im : f.models) {
+                        for (const auto &ic : im.spec.comps) {
+                            if (ic.import >= 0 && im.importTarget[static_cast<size_t>(ic.import)] == m && ic.importRef == old.comps[static_cast<size_t>(e)].name && !ic.vars.empty()) {
+                                connectedTarget = true;
+                            }
+                        }
+                    }
+                }
+                if (connectedTarget) {
+                    ++f.counters["excluded:C06.equivalences|missing|chain-element-without-placeholder"];
+                } else {
+                    ok.push_back(e);
+                }
+            }
+            elig = ok;
+        }
         if (elig.empty()) {
             return false;
         }
@@ -1505,8 +1529,18 @@ C06Forest c06GenForest(Src &src, const C06Options &opt)
             }
             for (const auto &v : c.vars) {
                 bool found = false;
-                for (const auto &tv : tm.spec.comps[static_cast<size_t>(ti)].vars) {
-                    found = found || tv.name == v.name;
+                if (opt.libsParsed) {
+                    // a parsed import element has the variables its model's connections mention, nothing else
+                    for (const auto &cn : tm.spec.conns) {
+                        for (const auto &mp : cn.maps) {
+                            found = found || (cn.c1 == ti && tm.spec.comps[static_cast<size_t>(ti)].vars[static_cast<size_t>(mp.v1)].name == v.name);
+                            found = found || (cn.c2 == ti && tm.spec.comps[static_cast<size_t>(ti)].vars[static_cast<size_t>(mp.v2)].name == v.name);
+                        }
+                    }
+                } else {
+                    for (const auto &tv : tm.spec.comps[static_cast<size_t>(ti)].vars) {
+                        found = found || tv.name == v.name;
+                    }
                 }
                 if (!found) {
                     f.chainGap = true;
